@@ -292,6 +292,78 @@ fn one_run<V: Variant>(seed: u64, run: u64, keys: Keys<V>, shared_seed: [u8; 32]
     out
 }
 
+// ---------------------------------------------------------------------------
+// deep batch (instrumented build): a keygen and concurrent sign calls under
+// function-entry pre-emption - state shared between the samplers of different
+// threads (a lock-free memo, a static scratch value) is now within reach
+// ---------------------------------------------------------------------------
+
+fn deep_run(seed: u64, run: u64, shared: &world::KeyEntry<V512>) -> RunOutcome {
+    let mut rng = Prng::new(report::run_seed(seed, "C15deep", run));
+    let mut out = RunOutcome::default();
+    let kp = match shared.load() {
+        Ok(kp) => kp,
+        Err(_) => {
+            out.stats.inc("harness.pool_key_not_loadable");
+            return out;
+        }
+    };
+    let keys: Keys<V512> = Arc::new(vec![kp]);
+    let kseed = rng.seed32();
+    let nsign_threads = 1 + rng.usize_below(2);
+    let mut threads: Vec<Vec<Op>> = vec![vec![Op::Keygen { seed: kseed, ambient: None }]];
+    if rng.chance(1, 2) {
+        threads.push(vec![Op::Keygen { seed: kseed, ambient: None }]);
+    }
+    for _ in 0..nsign_threads {
+        threads.push((0..20 + rng.usize_below(30)).map(|_| Op::Sign { key: 0, msg: world::message(&mut rng), stream: rng.next_u64(), mode: Some(Mode::Uniform), norm_rejects: 0, compress_fails: 0 }).collect());
+    }
+    // counted yield points (measured): ~6*10^5 per keygen, ~8000 per sign
+    let yields: u64 = threads.iter().flatten().map(|o| if matches!(o, Op::Keygen { .. }) { 600_000 } else { 8_000 }).sum();
+    let budget = *rng.pick(&[30u64, 100, 300, 1000]);
+    let mut k = 0u32;
+    while k < 30 && (yields >> k) > budget {
+        k += 1;
+    }
+    let plan = WorldPlan { n: 512, key_seeds: vec![shared.seed], sched_seed: rng.next_u64(), switch_exp: Some(k), boundary: 64, threads };
+    let v = run_plan::<V512>(&plan, keys, true);
+    out.stats = v.stats;
+    out.stats.inc("runs");
+    out.stats.inc("runs.deep");
+    out.stats.add("deep.yield_points", out.stats.steps);
+    if let Some((class, detail)) = v.class {
+        let mut doc = plan.to_json();
+        doc.as_object_mut().unwrap().insert("deep".into(), json!(true));
+        out.violations.push(Violation { property: PROP, class, detail: format!("deep run {}: {}", run, detail), replay: doc, run: (1 << 41) + 100 + run });
+    }
+    out
+}
+
+/// entry of the deep binary: `falcon-sim deepruns C15 <tier> <seed> <outfile>`
+pub fn deepruns_main(tier: Tier, seed: u64, outfile: &str) -> i32 {
+    let w = report::workers();
+    let runs = if tier == Tier::Quick { 24u64 } else { 400 };
+    let pool: world::KeyPool<V512> = world::KeyPool::build(report::run_seed(seed, "c15-deep-pool", 0), 1, 0, w);
+    if pool.keys.is_empty() {
+        eprintln!("HARNESS-ERROR: deep key pool could not be built");
+        return 2;
+    }
+    let mut out = report::parallel_runs(runs, w, |run| deep_run(seed, run, &pool.keys[0]));
+    for (run, what) in report::take_dead_runs(&mut out.stats) {
+        out.violations.push(Violation {
+            property: PROP,
+            class: format!("run's process died: {}", what),
+            detail: format!("deep run {}", run),
+            replay: json!({"kind": "rerun"}),
+            run: (1 << 41) + 100 + run,
+        });
+    }
+    match std::fs::write(outfile, out.to_bytes()) {
+        Ok(_) => 0,
+        Err(_) => 2,
+    }
+}
+
 /// all 256 single-bit neighbours of a base seed, each keygen in its own process
 fn neighbourhood<V: Variant>(base: [u8; 32], w: usize) -> RunOutcome {
     let items: Vec<u64> = (0..257).collect();
@@ -699,6 +771,17 @@ pub fn check(tier: Tier, seed: u64) -> i32 {
             }
         }
     }
+    // deep batch: keygen with concurrent signers under function-entry pre-emption
+    match crate::props::run_deep_batch(PROP, tier, seed) {
+        Ok(Some(o)) => rep.absorb(o),
+        Ok(None) => {
+            rep.stats.notes.insert("NOTE: no instrumented (deep) build available; the deep keygen batch was skipped".into());
+        }
+        Err(e) => {
+            eprintln!("HARNESS-ERROR: {}", e);
+            return 2;
+        }
+    }
     for i in 0..ctx.nb512 {
         let mut r = Prng::new(report::run_seed(seed, "C15nb512", i as u64));
         let o = neighbourhood::<V512>(r.seed32(), w);
@@ -709,7 +792,7 @@ pub fn check(tier: Tier, seed: u64) -> i32 {
         let o = neighbourhood::<V1024>(r.seed32(), w);
         rep.absorb(o);
     }
-    rep.rule = "a case is one keygen(seed) call: (i) inside a seeded multi-thread plan where every seed occurs 2-3 times on the same or different baton-scheduled threads (pre-emption at the draws of keygen's seed-expanded stream and of concurrent sign calls), with or without a simulator stream installed behind the ambient seam, plus once in a fresh child process; (ii) in a mixed-variant sequence of keygens on one thread, each compared with a fresh process; (iii) three times in fresh processes for the seeds that need the most ntru_gen attempts (adaptively chosen from the neighbourhoods, and pinned in corpus/C15/hard-seeds.txt); (iv) on one of the 256 single-bit neighbours of a sampled base seed (the neighbourhood of each sampled base seed is enumerated completely; base seeds are sampled). Non-trivial for (i): the call was pre-empted mid-call; for (ii): every neighbour. Distinct = distinct (schedule trace, thread, seed) resp. distinct key pairs".into();
+    rep.rule = "a case is one keygen(seed) call: (i) inside a seeded multi-thread plan where every seed occurs 2-3 times on the same or different baton-scheduled threads (pre-emption at the draws of keygen's seed-expanded stream and of concurrent sign calls), with or without a simulator stream installed behind the ambient seam, plus once in a fresh child process; (i') the same in a deep batch (instrumented build: pre-emption at function entries, so also between two loads of shared state inside the sampler); (ii) in a mixed-variant sequence of keygens on one thread, each compared with a fresh process; (iii) three times in fresh processes for the seeds that need the most ntru_gen attempts (adaptively chosen from the neighbourhoods, and pinned in corpus/C15/hard-seeds.txt); (iv) on one of the 256 single-bit neighbours of a sampled base seed (the neighbourhood of each sampled base seed is enumerated completely; base seeds are sampled). Non-trivial for (i): the call was pre-empted mid-call; for (ii): every neighbour. Distinct = distinct (schedule trace, thread, seed) resp. distinct key pairs".into();
     rep.assumptions = vec![
         "keygen is stopped after 3000 ntru_gen attempts' worth of draws (bounded liveness; a correct tree needs 13 resp. 24 attempts on average)".into(),
         "an ambient-entropy draw inside keygen is recorded as a probe, not an alarm; only differing key bytes are".into(),
